@@ -13,9 +13,12 @@ def asyncThreadcheck(name, func, *args, **kwargs) -> asyncio.Future:
         try:
             result = func(*args, **kwargs)
             logging.debug("Got result from %s", func)
-        except Exception:
+        except Exception as e:
+            # The awaiting coroutine must be told: re-raising here only ends
+            # the thread and leaves the future pending for ever
             logging.exception("Got an error in the thread")
-            raise
+            loop.call_soon_threadsafe(future.set_exception, e)
+            return
         loop.call_soon_threadsafe(future.set_result, result)
 
     # Start thread
